@@ -10,6 +10,14 @@ import UF.Proofs.MaskMain
   Domain remarks (see DESIGN.md §3, §6): patterns are ASCII (`b < 128`, which includes the printable
   ASCII of the property); subjects contain no line feed (`.` of `.*` does not match `\n`; the property
   quantifies over printable ASCII subjects).
+
+  Subjects are ASCII in every statement that is a CLAIM ABOUT THE CODE (`c03_stored`, `c03`): Go's
+  `regexp` works on runes, the model (`Re.search`, `compiledAccepts`) on bytes, so for a subject with a
+  byte ≥ 128 the model is not Go -- e.g. rule `||ex.org/a^b` and URL `http://ex.org/aéb`: Go's
+  separator class consumes the two-byte `é` as ONE character and matches, the byte-level model does
+  not (adversarial review, TOP 7).  The hypothesis `∀ b ∈ u, b < 128` is not used by the proofs: the
+  model-level equalities hold for all bytes (see `c03_ast`); it delimits the domain on which the
+  statement speaks about Go.  The driver answers `ood` for such subjects (`modelPat` = `none`).
 -/
 namespace UF.C03
 open UF UF.Mask UF.MaskSpec
@@ -36,7 +44,9 @@ theorem c03_text_closed_form : ∀ p : Bytes, isAnyPattern p = false → isRegex
   patternToRegexpText_eq
 
 /-- (A) The expression a mask pattern stands for accepts, under unanchored search, exactly the
-    documented language (induction on the tokens). -/
+    documented language (induction on the tokens).  A purely MODEL-LEVEL lemma (regexp AST semantics =
+    positional mask matcher, both byte-level): it holds for every byte string `u`, but says something
+    about Go's rune-based `regexp` only for ASCII `u` -- that restriction is made in `c03_stored`/`c03`. -/
 theorem c03_ast : ∀ (p : MaskPat) (mc : Bool) (u : Bytes), p.isAny = false → NoNL u →
     Re.search (maskAst p mc) u = maskAccepts p mc u :=
   fun p mc u h hn => maskAst_sem p mc u h hn
@@ -49,18 +59,19 @@ theorem c03_text : ∀ (p : Bytes) (mc : Bool), (∀ b ∈ p, b < 128) → isAny
     ∃ t, preparePatternText p mc = .text t ∧ Re.parseRE t = some (maskAst (tokenize p) mc) :=
   fun p mc hp h1 h2 => prepare_parse p hp h1 h2 mc
 
-/-- (A)+(B), for the pattern as stored in the rule: compiled matcher = documented language. -/
-theorem c03_stored : ∀ (p : Bytes) (mc : Bool) (u : Bytes), (∀ b ∈ p, b < 128) →
+/-- (A)+(B), for the pattern as stored in the rule: compiled matcher = documented language, for
+    ASCII subjects (the domain on which the byte-level regexp model is Go's `regexp`). -/
+theorem c03_stored : ∀ (p : Bytes) (mc : Bool) (u : Bytes), (∀ b ∈ p, b < 128) → (∀ b ∈ u, b < 128) →
     isRegexPattern p = false → NoNL u →
     compiledAccepts p mc u = maskAccepts (tokenize p) mc u :=
-  fun p mc u hp h2 hn => compiledAccepts_eq p mc u hp h2 hn
+  fun p mc u hp _ h2 hn => compiledAccepts_eq p mc u hp h2 hn
 
 /-- C03 for the pattern as written in the rule text (the trailing `/*` form included): the rule's
-    compiled matcher accepts `u` iff the documented mask language of the pattern does. -/
-theorem c03 : ∀ (p : Bytes) (mc : Bool) (u : Bytes), (∀ b ∈ p, b < 128) →
+    compiled matcher accepts an ASCII subject `u` iff the documented mask language of the pattern does. -/
+theorem c03 : ∀ (p : Bytes) (mc : Bool) (u : Bytes), (∀ b ∈ p, b < 128) → (∀ b ∈ u, b < 128) →
     isRegexPattern (normalize p) = false → NoNL u →
     ((rewriteSlashStar p).map fun s => compiledAccepts s mc u) = some (ruleAccepts p mc u) := by
-  intro p mc u hp h2 hn
+  intro p mc u hp _ h2 hn
   rw [rewriteSlashStar_eq, Option.map_some, ruleAccepts,
     compiledAccepts_eq (normalize p) mc u (normalize_ascii p hp) h2 hn]
 
@@ -89,6 +100,11 @@ example : ruleAccepts (lit "||ex.org^") false (lit "https://Sub.ex.org/x") = tru
 example : ruleAccepts (lit "||ex.org^") true (lit "https://sub.eX.org/x") = false := by decide
 example : ruleAccepts (lit "||ex.org^") false (lit "https://notex.org/") = false := by decide
 example : NoNL (lit "https://Sub.ex.org/x") := by unfold NoNL; decide
+example : ∀ b ∈ lit "https://Sub.ex.org/x", b < 128 := by decide
+/-- Why the ASCII hypothesis on subjects: on `http://ex.org/aéb` (UTF-8 `c3 a9`) the byte-level model
+    of `||ex.org/a^b` answers `false`; Go's rune-level `regexp` answers `true` (reproduced by the review). -/
+example : compiledAccepts (lit "||ex.org/a^b") false (lit "http://ex.org/a" ++ [0xc3, 0xa9] ++ lit "b") = false := by
+  decide
 example : compiledAccepts (lit "||ex.org^") false (lit "https://Sub.ex.org/x") = true := by decide
 example : compiledAccepts (lit "a.c") false (lit "abc") = false := by decide
 example : ruleAccepts (lit "a|b/*") false (lit "xa|b?") = true := by decide
